@@ -48,7 +48,28 @@ def callables(step, t_off, rate=1.0):
     return (lambda t, x: M), (lambda t: np.zeros(3))
 
 
-def run_case(pd, case, cfg, parts, asm, ev_out, tid, use_update_all=False, rate=1.0, t_origin=0.0):
+def as_layout(F, layout):
+    """The same matrix VALUE in a different memory representation (the library is handed arrays built elsewhere:
+    Fortran-ordered results of linear algebra, views into larger state arrays, read-only arrays)."""
+    if layout == "fortran":
+        return np.asfortranarray(F)
+    if layout == "view":                      # non-contiguous view into a larger array
+        big = np.zeros((6, 6))
+        big[::2, ::2] = F
+        return big[::2, ::2]
+    if layout == "transposed-view":           # the .T of the C-ordered transpose: same value, F-contiguous view
+        return np.ascontiguousarray(F.T).T
+    if layout == "readonly":
+        G = F.copy()
+        G.setflags(write=False)
+        return G
+    return F
+
+
+LAYOUTS = ("c", "fortran", "c", "view", "transposed-view", "readonly", "c")
+
+
+def run_case(pd, case, cfg, parts, asm, ev_out, tid, use_update_all=False, rate=1.0, t_origin=0.0, layout="c"):
     phase, fabric, regime, n, M, chi, lam = cfg
     par = dict(M=M, chi=chi, asm=asm[0], phiOl=asm[1], x=[lam, 0])
     params = layerb.make_params(par)
@@ -61,6 +82,7 @@ def run_case(pd, case, cfg, parts, asm, ev_out, tid, use_update_all=False, rate=
         minerals = [pd.Mineral(phase=phase, fabric=fabric, regime=regime, n_grains=n, seed=tid)]
     F = rmat(case["F0"])
     F0 = F.copy()
+    F = as_layout(F, layout)      # only the first call sees the client's representation; later calls get what was returned
     detref = np.linalg.det(F0)
     ev_out.append(dict(id=len(ev_out), ev="Start", tid=tid))
     t_abs = t_origin   # the flow maps are functions of elapsed time only: any time origin gives the same solution
@@ -173,11 +195,12 @@ def main(tier):
         # seconds, negative times as used for pathlines traced backwards)
         t_origin = 0.0 if (case["kind"] == "long" or rate != 1.0) else [0.0, 4.0e5, 0.0, -2.5e6, 37.5][j % 5]
         start = len(events)
-        run_case(pd, case, cfg, parts, asm, events, tid=j, use_update_all=ua, rate=rate, t_origin=t_origin)
+        layout = LAYOUTS[j % len(LAYOUTS)]
+        run_case(pd, case, cfg, parts, asm, events, tid=j, use_update_all=ua, rate=rate, t_origin=t_origin, layout=layout)
         fam = case["steps"][0]["fam"] + ("/" + case["steps"][0]["g"]["via"]) + ("/seq" if case["kind"] == "sequence" else "") + ("/long" if case["kind"] == "long" else "")
         fams[fam] = fams.get(fam, 0) + 1
         for e in events[start:]:
-            meta[e["id"]] = dict(kind="closed-form", family=fam, config=list(cfg), parts=parts, update_all=ua, asm=asm[0], case_index=int(ci), rate=rate, t_origin=t_origin)
+            meta[e["id"]] = dict(kind="closed-form", family=fam, config=list(cfg), parts=parts, update_all=ua, asm=asm[0], case_index=int(ci), rate=rate, t_origin=t_origin, layout=layout)
             if "rel" in e:
                 chk.maximum("relative_error_vs_exact", e.pop("rel"))
         chk.count(("case", int(ci), j % len(CONFIGS), parts, ua))
@@ -205,7 +228,7 @@ def main(tier):
     for rj in rejects:
         m = meta.get(rj["id"], {})
         for clause in rj["clauses"]:
-            sig = dict(clause=clause, kind=m.get("kind"), family=m.get("family"), update_all=m.get("update_all"), rate=m.get("rate"), late_origin=bool(m.get("t_origin")))
+            sig = dict(clause=clause, kind=m.get("kind"), family=m.get("family"), update_all=m.get("update_all"), rate=m.get("rate"), late_origin=bool(m.get("t_origin")), layout=m.get("layout", "c"))
             chk.violation(sig, f"{clause} (N={rj['n']}, strain_e6={rj['strain_e6']}, {m})", dict(meta=m, event=events[rj["id"]], case=cases[m["case_index"]] if "case_index" in m else None))
     # negative controls: F.L instead of L.F would be off by O(0.1); emulate by corrupting measures
     good = [dict(id=0, ev="Start", tid=0), dict(id=1, ev="Update", tid=0, ok=True, dstrain_e6=200000, det_e9=10, rel_e9=6500000),
